@@ -2,7 +2,7 @@ CONSTANTS
  Confs <- MCConfs
  FixWaitErr = TRUE
  Reduce = TRUE
- MCShapes = {"img", "dup", "idx2", "nested", "art", "artidx", "bentry", "docker", "schema1", "ext", "empty", "inline", "dtag", "loop"}
+ MCShapes = {"img", "dup", "idx2", "nested", "art", "artidx", "bentry", "docker", "schema1", "ext", "empty", "inline", "dtag", "loop", "dupentry", "inlinebad", "sha512", "diamond2", "artshare"}
  MCPairs = {"tworeg", "samereg", "samerepo", "reg2dir", "dir2reg", "dir2dir"}
  MCOpts <- MCOptsDefault
  MCFeats <- MCFeatsMount3
